@@ -8,6 +8,7 @@ import (
 	"sort"
 	"time"
 
+	"golang.org/x/tools/go/ssa"
 	"verif/symgo/smt"
 )
 
@@ -28,6 +29,7 @@ type Job struct {
 	Prefixes  [][]Decision `json:"prefixes,omitempty"`
 	KFOpen    []string     `json:"kf_open,omitempty"`
 	Concrete  map[string]string `json:"concrete,omitempty"`
+	Summaries map[string]string `json:"summaries,omitempty"` // callee name -> harness-provided summary function (same package)
 }
 
 // JobResult is what a worker reports back.
@@ -115,6 +117,17 @@ func (p *Program) RunJob(j Job) (res JobResult) {
 		x.KFOpen[k] = true
 	}
 	x.concrete = j.Concrete
+	if len(j.Summaries) > 0 {
+		x.Summaries = map[*ssa.Function]*ssa.Function{}
+		for from, to := range j.Summaries {
+			f, t := p.FindFunc(j.Pkg, from), p.FindFunc(j.Pkg, to)
+			if f == nil || t == nil {
+				res.Error = "summary function not found: " + from + " -> " + to
+				return
+			}
+			x.Summaries[f] = t
+		}
+	}
 	work := j.Prefixes
 	if len(work) == 0 {
 		work = [][]Decision{nil}
